@@ -265,4 +265,35 @@ def defineEnum (ms : List Member) : Except EnumErr (Scalar × List Constant) :=
         | .error e => .error e
         | .ok out => .ok (s, out)
 
+/-! ## hypotheses of the enum theorems, executable (the driver evaluates them on every definition of the correspondence run) -/
+
+/-- the IR the initialiser of an enumerator is evaluated as (`none`: not an integer type, rejected) -/
+def memberExpr (cls : Cls) (e : Expr) : Option Expr :=
+  match cls with
+  | .scalar s => if s = .Bool ∨ s = .IntLiteral ∨ s = .Int32 ∨ s = .UInt32 then some e else none
+  | .enum _ u => some (.cast (.scalar u) e)
+  | .other => none
+
+/-- every initialiser is a well-formed tree -/
+def membersWf : List Member → Bool
+  | [] => true
+  | none :: r => membersWf r
+  | some (_, e) :: r => wfE e && membersWf r
+
+/-- integer-like: what can be an enumerator while the enum is being defined -/
+def intLike (c : Constant) : Bool :=
+  c.kind == .Bool || c.kind == .IntLiteral || c.kind == .Int32 || c.kind == .UInt32
+
+/-- hypotheses of `defineEnum_noPanic`, executable: every initialiser is a well-formed tree with admissible operand
+kinds (the hypotheses of `consteval_no_panic`), and — type soundness of the front end — an initialiser of integer
+or enum type evaluates, if at all, to an integer-like constant -/
+def membersOk : List Member → Bool
+  | [] => true
+  | none :: r => membersOk r
+  | some (cls, e) :: r =>
+    wfE e && kindsOk e &&
+    (match memberExpr cls e with
+     | some e' => (match eval e' with | .ok c => intLike c | .error _ => true)
+     | none => true) && membersOk r
+
 end RsslVerif.Model.ConstPos
